@@ -154,7 +154,7 @@ inductive ScanItem where
   | count (kw tok : Bytes) (n : Int)
 
 def ScanItem.ok : ScanItem → Prop
-  | .match_ kw _ => upper kw = b!"MATCH"
+  | .match_ kw pat => upper kw = b!"MATCH" ∧ validUtf8 pat = true
   | .count kw tok n => upper kw = b!"COUNT" ∧ atoi tok = some n
 
 def ScanItem.msgs : ScanItem → List Msg
@@ -177,7 +177,7 @@ theorem scanOpts_items (items : List ScanItem) (h : ∀ i ∈ items, i.ok) (p : 
       simp only [ScanItem.ok] at hi
       simp only [List.flatMap_cons, ScanItem.msgs, List.cons_append, List.nil_append, List.foldl_cons, ScanItem.apply]
       rw [← ih hrest]
-      simp [scanOpts, B, msgStr, hi]
+      simp [scanOpts, B, msgStr, hi.1, hi.2]
     | count kw tok n =>
       simp only [ScanItem.ok] at hi
       simp only [List.flatMap_cons, ScanItem.msgs, List.cons_append, List.nil_append, List.foldl_cons, ScanItem.apply]
@@ -186,7 +186,8 @@ theorem scanOpts_items (items : List ScanItem) (h : ∀ i ∈ items, i.ok) (p : 
       simp [scanOpts, B, msgStr, msgInt, hi.1, hi.2, hne]
 
 /-- **SCAN** `cursor [MATCH pattern] [COUNT n]` with the options in any order, any number of times (the last one of
-a kind wins) and any letter case: one `Scan` call with the cursor, the pattern compiled as a glob, and the count -/
+a kind wins) and any letter case: one `Scan` call with the cursor, the pattern compiled as a glob, and the count (patterns are valid UTF-8: Go's regexp, and with it `glob.Compile`, refuses anything else – such
+a SCAN is answered with an error, see `C05_scan_invalid_utf8`) -/
 theorem C05_scan (pf : FloatOracle) (srv : SrvSt) (conn : ConnSt) (c t : Bytes) (cur : Int) (items : List ScanItem)
     (hh : srv.hasHandler = true) (ha : conn.authorized = true) (hu : upper c = b!"SCAN")
     (ht : atoi t = some cur) (hi : ∀ i ∈ items, i.ok) :
@@ -199,10 +200,17 @@ theorem C05_scan (pf : FloatOracle) (srv : SrvSt) (conn : ConnSt) (c t : Bytes) 
   have := dispatch_callRet pf srv conn c _ execScan _ hh ha (by rw [hu]; decide) (by rw [hu]; rfl) hx
   rw [hu] at this; exact this
 
+/-- a MATCH pattern that is not valid UTF-8 is refused: an error reply, no handler call -/
+theorem C05_scan_invalid_utf8 (cur : Bytes) (kw pat : Bytes) (rest : List Msg) (hk : upper kw = b!"MATCH")
+    (hp : validUtf8 pat = false) : scanOpts defaultScanRegex 10 (B kw :: B pat :: rest) = .error (errInvalid b!"pattern") := by
+  simp [scanOpts, B, msgStr, hk, hp]
+
+example : validUtf8 [0x40, 0x51, 0x58, 0xf2, 0x4b, 0x92] = false ∧ validUtf8 b!"h\xc3\xa9llo*" = true := by decide
+
 example : (ScanItem.count b!"cOuNt" b!"25" 25).ok ∧ (ScanItem.match_ b!"match" b!"a.c*").ok := by
   constructor
   · exact ⟨by decide, by decide⟩
-  · show upper b!"match" = b!"MATCH"; decide
+  · exact ⟨by decide, by decide⟩
 
 
 /-- a sorted-set range option as the client spells it -/
